@@ -187,7 +187,7 @@ class AddonAsync(Addon):
             if is_service:
                 raise EdzedCircuitError("Unexpected task termination")
         except Exception as err:
-            add_note(err, f"block {self}, coroutine: {coro.__qualname__}")
+            add_note(err, f"block {self}, coroutine: {getattr(coro, '__qualname__', coro)}")
             self.circuit.abort(err)
             raise
         return retval
